@@ -20,6 +20,7 @@ EXPLANATION = (
     "C12.INLOOP: every server transport's per-message entry (message_from_client of the connection handler) contains whatever the router "
     "raises, so one bad message cannot end the receive loop; the receive loop's surrounding catch-all (which closes the connection) is not "
     "the first handler. C12.ENABLE: enableBLOB from an unregistered sender raises nothing (shared with C05.KEY)."
+    ' C12.ESCAPE also feeds, per target and kind, a childless message built by the real message constructor (what it stores for an absent child list is what the driver iterates). C12.REGEX: no regex applied to client-supplied text has an unbounded repeat whose iteration is ambiguous (exponential backtracking stalls the serving thread).'
 )
 NOT_DECIDED = "that state is unchanged for every hostile value beyond the element-level stores listed; what user-written handlers do after being contained."
 ASSUMPTIONS = ["logging calls do not raise", "the may-raise table: int/float/b64decode/assert/raise/subscript/user handlers; other stdlib calls on the path (str methods, dict.get, isinstance, getattr with default) do not raise"]
